@@ -320,6 +320,9 @@ func checkFault(c FaultCase) error {
 
 func tail(b []byte) string {
 	s := string(b)
+	if os.Getenv("VERIF_FULL_STDERR") != "" {
+		return s
+	}
 	head := ""
 	for _, marker := range []string{"panic:", "fatal error:", "level=fatal", "level=error", "level=panic"} {
 		if i := strings.Index(s, marker); i >= 0 {
@@ -368,7 +371,8 @@ func TestEveryTruncation(t *testing.T) {
 			z := compress(k, orig)
 			for cut := 1; cut < len(z); cut++ {
 				variants := []FaultCase{{File: f, Codec: k, Cut: cut, FlipByte: -1, Command: "obiconvert"}}
-				if cut%3 == 0 || evid.Thorough() {
+				// (the first bytes - magic number and header - get every variant in the quick tier too)
+				if cut%3 == 0 || cut <= 12 || (evid.Thorough() && (f.NRec < 40 || cut%2 == 0)) {
 					variants = append(variants,
 						FaultCase{File: f, Codec: k, Cut: cut, FlipByte: -1, Command: "obicount"},
 						FaultCase{File: f, Codec: k, Cut: cut, FlipByte: -1, Command: "obigrep"})
